@@ -1134,7 +1134,12 @@ func propC16(c *Ctx) {
 		}
 		isWanted := func(v ssa.Value) bool {
 			p, ok := stripConv(v).(*ssa.Parameter)
-			return ok && p.Parent() == diff && p.Name() == "cols"
+			if !ok || p.Parent() != diff {
+				return false
+			}
+			// the wanted definition: Diff's parameter that is a list of columns (whatever it is called)
+			sl, isSl := p.Type().Underlying().(*types.Slice)
+			return isSl && repoNamedIs(sl.Elem(), "wpg", "Column")
 		}
 		allInstrs(diff, func(in ssa.Instruction) {
 			st, ok := in.(*ssa.Store)
